@@ -160,6 +160,15 @@ class ScriptedBackend(TrialBackend):
             self.deleted.add(trial_id)
 
     def busy_trial_ids(self):
+        # (only used with start_jobs_without_delay=False) a job whose script is finished may exit between the last poll
+        # and this query: then the backend's busy list is shorter than the tuner's running set
+        for t in sorted(self.lagged):
+            if self.proc.get(t) == ALIVE and not self.todo.get(t):
+                if self.ch.choose("busy_exit", 2) == 1:
+                    self.proc[t] = EXITED
+                    self.shown[t] = Status.completed
+                    self.lagged.discard(t)
+                    self.log.append(("exit", t, self.run_idx[t]))
         return [(t, s) for t, s in self.shown.items() if s == Status.in_progress]
 
     def stop_all(self):
@@ -197,7 +206,8 @@ class ScriptedBackend(TrialBackend):
         if not self.in_stop_all:
             self.polls += 1
             self.log.append(("poll", self.polls, tuple(trial_ids)))
-            alive = [t for t in sorted(trial_ids) if self.proc.get(t) == ALIVE]
+            # every live job makes progress between two polls, whether or not the tuner asks about it
+            alive = [t for t in sorted(self.proc) if self.proc.get(t) == ALIVE]
             counts = {}
             for t in alive:
                 rem = len(self.todo[t])
